@@ -232,7 +232,7 @@ pub fn check(scn: &dyn Scenario, opts: &CheckOpts) -> i32 {
                     }
                     WATCH.lock().unwrap()[wid] = (idx, Some(Instant::now()));
                     let (plan, tape) = generate(scn, opts.tier, opts.seed, idx);
-                    let out = scn.run(&plan, tape, false);
+                    let out = run_isolated(scn, &plan, tape, false);
                     WATCH.lock().unwrap()[wid] = (idx, None);
                     let mut a = agg.lock().unwrap();
                     a.evaluations += 1;
@@ -297,11 +297,16 @@ pub fn check(scn: &dyn Scenario, opts: &CheckOpts) -> i32 {
     let mut det_checked = 0u64;
     let mut det_mismatch = Vec::new();
     for (idx, plan, tape, digest) in &a.det_samples {
-        let out = scn.run(plan, Tape::replay(tape.clone()), false);
+        let out = run_isolated(scn, plan, Tape::replay(tape.clone()), false);
         det_checked += 1;
         if out.digest != *digest {
             det_mismatch.push(*idx);
         }
+    }
+    if !det_mismatch.is_empty() && !ISOLATE.load(Ordering::SeqCst) {
+        eprintln!("runs {:?} were not reproducible bit for bit; searching again with every run on a thread of its own", det_mismatch);
+        ISOLATE.store(true, Ordering::SeqCst);
+        return check(scn, opts);
     }
     let nondeterministic = !det_mismatch.is_empty();
     if nondeterministic && a.found.is_empty() {
@@ -406,6 +411,40 @@ pub fn check(scn: &dyn Scenario, opts: &CheckOpts) -> i32 {
     }
 }
 
+/// Switched on (for the rest of the process) when re-executed runs do not reproduce their digest: a tree
+/// that keeps state in thread-locals makes a run depend on what its worker thread ran before. Creating a
+/// thread per run costs about twenty times the run itself, so it is paid only then.
+pub static ISOLATE: AtomicBool = AtomicBool::new(false);
+
+/// Runs one plan on a thread of its own, so that nothing kept in a thread-local by the code under test
+/// (or by the simulator) outlives the run: a run depends on its plan and its tape, not on which runs the
+/// worker thread happened to execute before.
+pub fn run_isolated(scn: &dyn Scenario, plan: &Value, tape: Tape, keep: bool) -> RunOutput {
+    run_isolated_until(scn, plan, tape, keep, None)
+}
+
+/// As above, with a wall-clock deadline after which the run is abandoned (minimiser candidates only).
+pub fn run_isolated_until(scn: &dyn Scenario, plan: &Value, tape: Tape, keep: bool, deadline: Option<Instant>) -> RunOutput {
+    if !ISOLATE.load(Ordering::SeqCst) {
+        // the usual, fast way: on the calling worker thread
+        crate::core::WALL_LIMIT.with(|c| c.set(deadline));
+        let out = scn.run(plan, tape, keep);
+        crate::core::WALL_LIMIT.with(|c| c.set(None));
+        return out;
+    }
+    std::thread::scope(|s| {
+        std::thread::Builder::new()
+            .stack_size(16 << 20)
+            .spawn_scoped(s, || {
+                crate::core::WALL_LIMIT.with(|c| c.set(deadline));
+                scn.run(plan, tape, keep)
+            })
+            .expect("spawn run thread")
+            .join()
+            .unwrap_or_default()
+    })
+}
+
 fn hang_secs() -> u64 {
     std::env::var("VERIF_HANG_SECS").ok().and_then(|s| s.parse().ok()).unwrap_or(90)
 }
@@ -484,12 +523,12 @@ pub fn replay(scn: &dyn Scenario, file: &Value, trace: bool) -> i32 {
             println!("REPRODUCED class=hang (thread blocked for {}s of wall time)", hang_secs());
             std::process::exit(1);
         });
-        let out = scn.run(&plan2, tape, trace);
+        let out = run_isolated(scn, &plan2, tape, trace);
         fin.store(true, Ordering::SeqCst);
         out
     } else {
         let tape: Vec<u32> = file["tape"].as_array().map(|a| a.iter().map(|x| x.as_u64().unwrap_or(0) as u32).collect()).unwrap_or_default();
-        scn.run(&plan, Tape::replay(tape), trace)
+        run_isolated(scn, &plan, Tape::replay(tape), trace)
     };
     if trace {
         for e in &out.events {
@@ -566,7 +605,7 @@ fn minimise(scn: &dyn Scenario, plan: &Value, tape: &[u32], class: &str, detail:
     let mut best_digest = digest;
     // a candidate may cost at most a few times what the original run cost (zeroed tapes can mean byte-sized I/O)
     let t_orig = Instant::now();
-    let _ = scn.run(plan, Tape::replay(tape.to_vec()), false);
+    let _ = run_isolated(scn, plan, Tape::replay(tape.to_vec()), false);
     let per_run = (t_orig.elapsed() * 4).max(Duration::from_millis(200));
     if t_orig.elapsed() > Duration::from_secs(5) {
         budget = 30;
@@ -577,9 +616,7 @@ fn minimise(scn: &dyn Scenario, plan: &Value, tape: &[u32], class: &str, detail:
             return None;
         }
         *budget -= 1;
-        crate::core::WALL_LIMIT.with(|c| c.set(Some(Instant::now() + per_run)));
-        let out = scn.run(p, Tape::replay(t.to_vec()), false);
-        crate::core::WALL_LIMIT.with(|c| c.set(None));
+        let out = run_isolated_until(scn, p, Tape::replay(t.to_vec()), false, Some(Instant::now() + per_run));
         out.violations.iter().find(|(c, _)| c == class).map(|(_, d)| (d.clone(), out.digest, out.tape.len().max(0)))
     };
     // The original must reproduce in replay mode at all.
@@ -712,7 +749,7 @@ fn minimise(scn: &dyn Scenario, plan: &Value, tape: &[u32], class: &str, detail:
         }
     }
     // Final re-execution fixes the digest for the minimised pair.
-    let out = scn.run(&best_plan, Tape::replay(best_tape.clone()), false);
+    let out = run_isolated(scn, &best_plan, Tape::replay(best_tape.clone()), false);
     match out.violations.iter().find(|(c, _)| c == class) {
         Some((_, d)) => {
             best_detail = d.clone();
